@@ -11,6 +11,7 @@ mod c19;
 mod c20;
 mod ev;
 mod gen_expr;
+mod nz;
 mod tz;
 mod tztable;
 mod util;
@@ -34,6 +35,8 @@ fn exec_line(line: &str) -> String {
         c15::exec(op, args)
     } else if op.starts_with("chr.") {
         cal::exec(op, args)
+    } else if op.starts_with("nz.") {
+        nz::exec(op, args)
     } else if op.starts_with("tz.") {
         tz::exec(op, args)
     } else if op.starts_with("sch.") {
@@ -75,6 +78,7 @@ fn main() {
                 "c15" => c15::gen(tier, &mut rng, &mut emit),
                 "cal" => cal::gen(tier, &mut rng, &mut emit),
                 "tz" => tz::gen(tier, &mut rng, &mut emit),
+                "nz" => nz::gen(tier, &mut rng, &mut emit),
                 _ => {
                     eprintln!("unknown suite {suite}");
                     std::process::exit(2);
